@@ -259,6 +259,84 @@ def check_c15(idx: Index, tier: str, res: Result) -> None:
                              norm_stmt(n), "handler name re-bound in the class body")
 
     _c15_gate(idx, res)
+    _c15_hooks(idx, res)
+
+
+def _read_only_table(idx: Index, name: str) -> bool:
+    """Is every use of the attribute *name* in the package a plain read of an entry (X.name[k], k in X.name, X.name.get(k), iteration,
+    a copy)?  Then a class-level dict/list of that name is a constant table, not shared state.  Any other use - a store through it,
+    a mutator call, the object itself handed on (assigned, passed, returned) - makes it state."""
+    uses = 0
+    for m in idx.modules.values():
+        parents = {}
+        for p_ in ast.walk(m.tree):
+            for c_ in ast.iter_child_nodes(p_):
+                parents[id(c_)] = p_
+        for n in ast.walk(m.tree):
+            if isinstance(n, ast.Attribute) and n.attr == name:
+                uses += 1
+                par = parents.get(id(n))
+                if isinstance(n.ctx, (ast.Store, ast.Del)):
+                    return False
+                if isinstance(par, ast.Subscript) and par.value is n and isinstance(par.ctx, ast.Load):
+                    # an entry that is itself a mutable object may be edited through the read: X.name[k].append(...) / X.name[k][j] = v
+                    gp = parents.get(id(par))
+                    if isinstance(gp, ast.Subscript) and gp.value is par and not isinstance(gp.ctx, ast.Load):
+                        return False
+                    if isinstance(gp, ast.Attribute) and gp.attr in ("append", "extend", "update", "pop", "clear", "insert", "remove", "setdefault", "sort", "add"):
+                        return False
+                    continue
+                if isinstance(par, ast.Compare) and n in par.comparators and all(isinstance(o, (ast.In, ast.NotIn)) for o in par.ops):
+                    continue
+                if isinstance(par, ast.Attribute) and par.value is n and par.attr in ("get", "keys", "values", "items", "copy", "index", "count"):
+                    continue
+                if isinstance(par, (ast.For, ast.comprehension)) and par.iter is n:
+                    continue
+                if isinstance(par, ast.Call) and n in par.args and call_name(par) in ("deepcopy", "len", "sorted", "list", "tuple", "dict", "set", "frozenset"):
+                    continue
+                return False
+    return uses > 0
+
+
+PRE_VIEW_HOOKS = ("before_request", "before_first_request", "url_value_preprocessor", "before_app_request", "url_defaults")
+
+
+def _c15_hooks(idx: Index, res: Result) -> None:
+    """HOOK: Flask runs request hooks (before_request, url_value_preprocessor, ...) before the view function, that is before the token
+    gate that wraps the view.  A hook registered by the server must not touch the instance manager, the adapter or the bptk object:
+    whatever it does is done for requests without the token as well."""
+    ci = idx.cls(SERVER, "BptkServer")
+    regs = []
+    for fi in idx.all_funcs("BPTK_Py/server/"):
+        for c in iter_calls(fi.node):
+            if call_name(c) in PRE_VIEW_HOOKS and c.args and (call_recv(c) or "") in ("self", "app"):
+                regs.append((fi, c, c.args[0]))
+        for d in fi.decorators:
+            if any(("." + h) in d for h in PRE_VIEW_HOOKS):
+                regs.append((fi, fi.node, ast.Attribute(value=ast.Name(id="self", ctx=ast.Load()), attr=fi.node.name, ctx=ast.Load())))
+    res.ob("HOOK", "request hooks registered by the server: %d" % len(regs), True, nontrivial=False)
+    for fi, site, target in regs:
+        name = target.attr if isinstance(target, ast.Attribute) else (target.id if isinstance(target, ast.Name) else None)
+        seen, todo, touched = set(), [name], []
+        while todo:
+            nm = todo.pop()
+            if nm is None or nm in seen or nm not in ci.methods:
+                continue
+            seen.add(nm)
+            f2 = ci.methods[nm][-1]
+            for c in iter_calls(f2.node):
+                recv = call_recv(c) or ""
+                if recv.startswith("self._instance_manager") or recv.startswith("self._external_state_adapter") or recv.startswith("self._bptk"):
+                    touched.append(src(c)[:60])
+                if recv == "self":
+                    todo.append(call_name(c))
+            for n in walk_no_nested(f2.node):
+                if isinstance(n, ast.Assign) and any((dotted(t) or "").startswith("self.") for t in n.targets):
+                    touched.append(norm_stmt(n)[:60])
+        res.check("HOOK", "hook %s has no effect on server state" % (name or src(target)), not touched, fi.loc(site), fi.qual, src(site)[:90] if not isinstance(site, ast.FunctionDef) else name,
+                  "%s is registered as a Flask %s hook: it runs before the view and therefore before the token check, and it does %s - a request "
+                  "without the token changes the server's state even though it is answered with 401" % (name or src(target), call_name(site) if isinstance(site, ast.Call) else "request", "; ".join(touched[:3])),
+                  key="HOOK/%s/pre-view-effect" % (name or "?"))
 
 
 def _c15_gate(idx: Index, res: Result) -> None:
@@ -275,6 +353,7 @@ def _c15_gate(idx: Index, res: Result) -> None:
                  "token_required does not return the checking wrapper on every path")
     res.ob("GATE", "token_required returns the wrapper", True)
 
+    gate_cls = idx.cls(SERVER, "BptkServer")
     cfg = build_cfg(inner.node, inner.qual)
     fcalls = [n for n in cfg.stmt_nodes()
               if any(isinstance(c.func, ast.Name) and c.func.id == fparam for c in iter_calls(n.ast))]
@@ -286,12 +365,15 @@ def _c15_gate(idx: Index, res: Result) -> None:
     # facts: (configured: 'yes'|'no'|'?', checked: bool, scheme: bool, whole: bool, names known to be None)
     def transfer(node: Node, fact, label: str):
         conf, checked, scheme, whole, nones = fact
-        # names known to be None are recorded as "x", names known to hold an object (a response that was just built) as "+x"
+        # names known to be None are recorded as "x", names known to hold an object (a response that was just built) as "+x",
+        # names holding a string constant (a verdict such as "missing" / "wrong") as "=x=<value>"
         if node.kind == "stmt" and label != "exc" and isinstance(node.ast, ast.Assign):
             for t in node.ast.targets:
                 if isinstance(t, ast.Name):
                     v = node.ast.value
-                    nones = nones - {t.id, "+" + t.id}
+                    nones = frozenset(x for x in nones if x not in (t.id, "+" + t.id) and not x.startswith("=%s=" % t.id))
+                    if isinstance(v, ast.Constant) and isinstance(v.value, str):
+                        nones = nones | {"=%s=%s" % (t.id, v.value)}
                     if is_none_or_false(v) and v is not None:
                         nones = nones | {t.id}
                     elif (isinstance(v, ast.Call) and call_name(v) in ("make_response", "Response", "jsonify")) or \
@@ -301,10 +383,24 @@ def _c15_gate(idx: Index, res: Result) -> None:
                         nones = nones | {t.id}
         if node.kind == "test" and label in ("true", "false"):
             for atom, truth in implied(node.ast, label == "true"):
+                # <verdict> in TABLE / <verdict> == "text": decided where the verdict is known on this path
+                if isinstance(atom, ast.Compare) and len(atom.ops) == 1 and isinstance(atom.ops[0], (ast.In, ast.Eq)) and isinstance(atom.left, ast.Name):
+                    keys = _const_keys(gate_cls, atom.comparators[0]) if isinstance(atom.ops[0], ast.In) else (
+                        {atom.comparators[0].value} if isinstance(atom.comparators[0], ast.Constant) and isinstance(atom.comparators[0].value, str) else None)
+                    if keys is not None:
+                        val = next((x.split("=", 2)[2] for x in nones if x.startswith("=%s=" % atom.left.id)), None)
+                        known = val is not None or atom.left.id in nones
+                        if known:
+                            holds = val is not None and val in keys
+                            if holds != truth:
+                                return []      # infeasible on this path
+                            continue
                 if isinstance(atom, ast.Compare) and len(atom.ops) == 1 and isinstance(atom.ops[0], ast.Is) \
                         and isinstance(atom.left, ast.Name) and is_none_or_false(atom.comparators[0]):
                     if atom.left.id in nones and not truth:
                         return []          # infeasible: the name is None on this path
+                    if any(x.startswith("=%s=" % atom.left.id) for x in nones) and truth:
+                        return []          # infeasible: the name holds a string on this path
                     if "+" + atom.left.id in nones and truth:
                         return []          # infeasible: the name holds an object on this path
                     if truth:
@@ -405,6 +501,21 @@ def _c15_gate(idx: Index, res: Result) -> None:
 
     # (3) credential shape
     _c15_credential(idx, res, inner, cfg, flow, fcalls, assigns)
+
+
+def _const_keys(ci, e: ast.AST) -> Optional[Set[str]]:
+    """The constant members of a literal collection: a tuple / list / set / dict literal, or a class-level table self.NAME of the
+    server class bound to such a literal."""
+    if isinstance(e, ast.Attribute) and isinstance(e.value, ast.Name) and e.value.id in ("self", "cls", ci.name):
+        for st in ci.node.body:
+            if isinstance(st, ast.Assign) and len(st.targets) == 1 and isinstance(st.targets[0], ast.Name) and st.targets[0].id == e.attr:
+                e = st.value
+                break
+    if isinstance(e, ast.Dict) and all(isinstance(k, ast.Constant) for k in e.keys):
+        return {k.value for k in e.keys}
+    if isinstance(e, (ast.Tuple, ast.List, ast.Set)) and all(isinstance(k, ast.Constant) for k in e.elts):
+        return {k.value for k in e.elts}
+    return None
 
 
 def _header_expr(e: ast.AST) -> bool:
@@ -576,6 +687,31 @@ def _lock_transfer(node: Node, fact, label: str):
     return [fact]
 
 
+def _owner_transfer(node: Node, fact, label: str):
+    """Whose lock is it?  '?' nothing known (another request may hold it), 'F' is_locked() was seen false on this path, 'M' this
+    request called lock()."""
+    if label == "exc" and node.ast is not None and node.kind in ("stmt", "test"):
+        # statements that cannot fail on what the client sent (building a constant response, reading request.is_json, fetching the
+        # instance - if that failed the receiver of unlock() would not even be bound) do not lead into the handler
+        calls_ = {call_name(c) for c in ast.walk(node.ast) if isinstance(c, ast.Call)}
+        subs_ = [x for x in ast.walk(node.ast) if isinstance(x, ast.Subscript) and isinstance(x.ctx, ast.Load) and not isinstance(x.value, ast.Attribute)]
+        if calls_ <= {"make_response", "is_locked", "lock", "unlock", "get_instance", "_ensure_instance_exists", "log"} and not subs_:
+            return []
+    if node.ast is not None and node.kind in ("stmt", "test", "iter", "with") and label not in ("exc", "genclose"):
+        probe = node.ast.iter if node.kind == "iter" else node.ast
+        if node.kind == "with":
+            probe = ast.Tuple(elts=[i.context_expr for i in node.ast.items], ctx=ast.Load())
+        if node.kind == "test" and label in ("true", "false") and _has_call(probe, "is_locked"):
+            for atom, truth in implied(node.ast, label == "true"):
+                if isinstance(atom, ast.Call) and call_name(atom) == "is_locked" and not truth:
+                    fact = "F"
+        if _has_call(probe, "lock"):
+            fact = "M"
+        if _has_call(probe, "unlock"):
+            fact = "F"
+    return [fact]
+
+
 def check_c18(idx: Index, tier: str, res: Result) -> None:
     res.explanation = ("Typestate analysis of the advisory step lock on the statement CFG (exceptional, finally and "
                        "generator-close edges) of every server function that takes the lock or calls run_step: "
@@ -645,6 +781,19 @@ def check_c18(idx: Index, tier: str, res: Result) -> None:
                           "the lock is still held when %s ends by %s; path: %s"
                           % (fi.qual, kind, " ".join(flow.witness(ex, "L")) if not ok else ""),
                           key="TYPESTATE/%s/exit=%s/holds=lock" % (fi.qual, kind))
+        if nu:
+            # unlock() only releases what this request holds (or what it has just seen to be free): a failure before the is_locked()
+            # test must not end in the handler that unlocks - it would release the lock of the request that is running
+            oflow = Flow(cfg, ["?"], _owner_transfer)
+            for n in cfg.stmt_nodes():
+                probe = n.ast.iter if n.kind == "iter" else n.ast
+                if n.kind in ("def", "handler", "dispatch") or n.ast is None or not _has_call(probe, "unlock"):
+                    continue
+                bad = "?" in oflow.at[n.id]
+                res.check("TYPESTATE", "%s: %s releases only its own lock" % (fi.qual, norm_stmt(probe)[:40]), not bad, fi.loc(n.ast), fi.qual, norm_stmt(probe)[:80],
+                          "unlock() is reachable before this request has either taken the lock or seen it free; path: %s - a request that fails "
+                          "that early releases the lock another request holds" % (" ".join(oflow.witness(n.id, "?", 12)) if bad else ""),
+                          key="TYPESTATE/%s/unlock-not-held" % fi.qual)
         if has_step:
             for n in cfg.stmt_nodes():
                 probe = n.ast.iter if n.kind == "iter" else n.ast
@@ -989,6 +1138,18 @@ def check_c17(idx: Index, tier: str, res: Result) -> None:
     loops = [n for n in walk_no_nested(sweep.node) if isinstance(n, ast.For) and "_instances" in src(n.iter)]
     res.check("EXPIRY", "sweep iterates over all instances", bool(loops), sweep.loc(), sweep.qual, "for ... in self._instances",
               "the sweep does not iterate over the instance table", key="EXPIRY/_timeout_instances/no-loop")
+    # ... on every call: no early return and no condition decides whether the table is walked ("nothing can be due yet" shortcuts are
+    # right only if every path that adds or restores an instance keeps them up to date)
+    from ..util import nesting_atoms as _natoms
+    for lp_ in loops[:1]:
+        early = [r for r in walk_no_nested(sweep.node) if isinstance(r, ast.Return) and seq(r) < seq(lp_)]
+        conds = _natoms(sweep.node, lp_)
+        res.check("EXPIRY", "the sweep walks the table on every call", not early and not conds, sweep.loc(early[0] if early else lp_), sweep.qual,
+                  norm_stmt(early[0])[:60] if early else "; ".join(src(a_)[:40] for a_, _t in conds),
+                  "the sweep is skipped %s: an instance that is due (one that was restored or created on a path that does not maintain that "
+                  "condition) stays alive past its timeout" % (("by an early return before the loop (`%s`)" % norm_stmt(early[0])[:50]) if early else
+                                                               "unless " + " and ".join(src(a_)[:50] for a_, _t in conds)),
+                  key="EXPIRY/_timeout_instances/conditional-sweep")
 
     # ---- touchers and sweepers ----------------------------------------------
     upd = idx.func(SERVER, "InstanceManager._update_instance_timestamp")
@@ -1355,6 +1516,17 @@ def check_c16(idx: Index, tier: str, res: Result) -> None:
             res.check("OWNID", "%s does not read the instance table directly" % f.qual, not direct, f.loc(direct[0]) if direct else f.loc(), f.qual,
                       "_instances", "%s reaches into the instance table" % f.qual, key="OWNID/%s/_instances" % f.qual)
     res.floor("instance-manager calls in scoped handlers", ncalls, 12)
+    # the on-demand restore concerns the requested instance only: it never reads the state of all instances, and what it reconstructs is
+    # the id it was asked for (reconstructing an instance that is live replaces its object - a request for one instance would reset another)
+    ens = idx.func(SERVER, "BptkServer._ensure_instance_exists")
+    ep = params(ens.node)[1] if len(params(ens.node)) > 1 else "instance_uuid"
+    bulk = [c for c in iter_calls(ens.node, into_nested=True) if call_name(c) == "load_state"]
+    res.check("OWNID", "the on-demand restore reads the requested instance's state only", not bulk, ens.loc(bulk[0]) if bulk else ens.loc(), ens.qual,
+              src(bulk[0])[:80] if bulk else "load_instance(%s)" % ep,
+              "_ensure_instance_exists loads the externalised state of *all* instances (%s) to serve a request for one: every other instance that "
+              "has a state file is reconstructed over its live object and loses what was not yet externalised" % (src(bulk[0])[:50] if bulk else ""),
+              key="OWNID/BptkServer._ensure_instance_exists/bulk-restore")
+    # (a loop as such says nothing: a shared helper that reconstructs a list of states may be handed the one state that was loaded)
     # instance objects are used only via the local bound from get_instance(instance_uuid)
     # ---- statics -------------------------------------------------------------------------------------------------------------
     nstat = 0
@@ -1369,6 +1541,9 @@ def check_c16(idx: Index, tier: str, res: Result) -> None:
                 v = n.value
                 tg = n.targets[0] if isinstance(n, ast.Assign) else n.target
                 if isinstance(v, (ast.Dict, ast.List, ast.Set)) or (isinstance(v, ast.Call) and call_name(v) in ("dict", "list", "set", "defaultdict")):
+                    if isinstance(tg, ast.Name) and _read_only_table(idx, tg.id):
+                        res.ob("STATICS", "%s.%s is a look-up table that is only ever read" % (cname, tg.id), True, nontrivial=False)
+                        continue
                     nstat += 1
                     res.check("STATICS", "%s.%s is not a class-level mutable" % (cname, src(tg)), False, "%s:%d" % (rel, n.lineno), cname, norm_stmt(n)[:80],
                               "%s.%s is a mutable object shared by every instance of the class: state written through it leaks between "
